@@ -66,7 +66,7 @@ def o191(ctx):
                     "(the nearest admissible neighbour with its own distance)", fn, m, index=tm.show(ids_t)[:200], distance=tm.show(dist_t)[:200])
         return
     masks = ci[1:-1]
-    actm = [x for x in masks if tm.has_sym(x, "active")]
+    actm = [x for x in masks if tm.has_sym(x, "active") and not tm.has_sym(x, "dist_min")]
     dmin = [x for x in masks if tm.has_sym(x, "dist_min")]
     ctx.count(1, {"activity mask": tm.show(actm[0])[:120] if actm else None, "distance mask": tm.show(dmin[0])[:160] if dmin else None})
     looked_up = any(e.kind == "index" and to_term(e.args[0]) == sym("active") and tm.has_call(to_term(e.args[-1]), ".query_radius") for e in it.events)
